@@ -267,13 +267,13 @@ Qed.
 End Exact.
 
 (* ---------- a whole session, exactly ---------- *)
-Definition path_text (u : url) : list N := nfirstn (path_end u - path_start u) (nskipn (path_start u) (ser u)).
+Definition path_bytes (u : url) : list N := nfirstn (path_end u - path_start u) (nskipn (path_start u) (ser u)).
 Definition st_of (u : url) : scheme_type := scheme_type_of (nfirstn (scheme_end u) (ser u)).
 
 Theorem path_segments_session_exact dbg u ops u' : wf_b u = true ->
   byte_eqb (ser u) (scheme_end u + 1) 47 = true -> st_is_file (st_of u) = false ->
   Forall psm_op_usv ops -> Forall psm_op_plain ops -> path_segments_session dbg u ops = Some (u', SOk) ->
-  u' = with_path u (session_text (st_of u) (path_text u) ops).
+  u' = with_path u (session_text (st_of u) (path_bytes u) ops).
 Proof.
   intros W Hsl Hnf Hops Hpl H.
   destruct (wf_ps_le_path_end u W) as [B5 B6]. pose proof (wf_se_lt_ps u W) as B0.
@@ -283,8 +283,8 @@ Proof.
   assert (nlen s0 = ps) as Ls0 by (apply nlen_nfirstn; lia).
   set (x0 := nfirstn pe (ser u)).
   assert (nlen x0 = pe) as Lx0 by (apply nlen_nfirstn; exact B6).
-  assert (x0 = s0 ++ path_text u) as Ex0.
-  { unfold x0, s0, path_text. fold ps pe. rewrite <- (nskipn_0 (ser u)) at 1 2.
+  assert (x0 = s0 ++ path_bytes u) as Ex0.
+  { unfold x0, s0, path_bytes. fold ps pe. rewrite <- (nskipn_0 (ser u)) at 1 2.
     replace (nfirstn pe (nskipn 0 (ser u))) with (nfirstn (pe - 0) (nskipn 0 (ser u))) by (f_equal; lia).
     replace (nfirstn ps (nskipn 0 (ser u))) with (nfirstn (ps - 0) (nskipn 0 (ser u))) by (f_equal; lia).
     symmetry. apply piece_app; lia. }
@@ -299,12 +299,12 @@ Proof.
   rewrite Ex0 in H. rewrite Hst in H. cbn [bindo] in H.
   match type of H with bindo (bindo (bindo ?c _) _) _ = _ => destruct c as [[]|]; cbn [bindo] in H; [|discriminate] end.
   cbn [ser set_ser path_start] in H. fold ps in H.
-  replace (nlen (s0 ++ path_text u)) with pe in H by (rewrite <- Ex0; symmetry; exact Lx0).
-  change (mkPsm (set_ser u (s0 ++ path_text u)) (ps + 1) (nskipn pe (ser u)) pe)
-    with (psm_at s0 ps u (nskipn pe (ser u)) pe (path_text u)) in H.
-  rewrite (run_exact dbg st s0 ps Ls0 Hnf u (nskipn pe (ser u)) pe eq_refl Hst ops (path_text u) Hops Hpl) in H.
+  replace (nlen (s0 ++ path_bytes u)) with pe in H by (rewrite <- Ex0; symmetry; exact Lx0).
+  change (mkPsm (set_ser u (s0 ++ path_bytes u)) (ps + 1) (nskipn pe (ser u)) pe)
+    with (psm_at s0 ps u (nskipn pe (ser u)) pe (path_bytes u)) in H.
+  rewrite (run_exact dbg st s0 ps Ls0 Hnf u (nskipn pe (ser u)) pe eq_refl Hst ops (path_bytes u) Hops Hpl) in H.
   cbn [bindo] in H.
-  set (P := session_text st (path_text u) ops) in *.
+  set (P := session_text st (path_bytes u) ops) in *.
   unfold psm_close, psm_at in H. cbn [psm_url psm_old_pos psm_after_path] in H.
   unfold restore_after_path in H. cbn [ser set_ser query_start fragment_start] in H.
   assert (match query_start u with Some i => pe <= i | None => True end) as Gq.
@@ -438,7 +438,7 @@ Lemma c06_7_witness :
   /\ (forall dbg, path_segments_session dbg w7_url [PPush [37; 50; 101; 9; 46]]
                   = Some (with_path w7_url [47;97;47;98;47;37;50;53;50;101;46], SOk))
   /\ path w7_popped = Some [47; 97; 47]
-  /\ w7_popped <> with_path w7_url (push_text (st_of w7_url) (path_text w7_url) [46; 9; 46]).
+  /\ w7_popped <> with_path w7_url (push_text (st_of w7_url) (path_bytes w7_url) [46; 9; 46]).
 Proof.
   repeat split; try (vm_compute; reflexivity); try (intros []; vm_compute; reflexivity).
   vm_compute. discriminate.
@@ -451,7 +451,7 @@ Example session_exact_example :
   /\ Forall psm_op_plain [PPush [120; 9; 121]; PExtend [[46; 46]; [99; 47; 37]; []]; PPop; PPush [233]]
   /\ path_segments_session true w7_url [PPush [120; 9; 121]; PExtend [[46; 46]; [99; 47; 37]; []]; PPop; PPush [233]]
      = Some (with_path w7_url [47;97;47;98;47;120;121;47;99;37;50;70;37;50;53;47;37;67;51;37;65;57], SOk)
-  /\ session_text (st_of w7_url) (path_text w7_url) [PPush [120; 9; 121]; PExtend [[46; 46]; [99; 47; 37]; []]; PPop; PPush [233]]
+  /\ session_text (st_of w7_url) (path_bytes w7_url) [PPush [120; 9; 121]; PExtend [[46; 46]; [99; 47; 37]; []]; PPop; PPush [233]]
      = [47;97;47;98;47;120;121;47;99;37;50;70;37;50;53;47;37;67;51;37;65;57].
 Proof.
   split; [vm_compute; reflexivity|]. split; [vm_compute; reflexivity|]. split; [vm_compute; reflexivity|].
@@ -459,5 +459,5 @@ Proof.
   split; [repeat constructor|]. split; vm_compute; reflexivity.
 Qed.
 
-Lemma path_text_is_path u : wf_b u = true -> path u = Some (path_text u).
+Lemma path_text_is_path u : wf_b u = true -> path u = Some (path_bytes u).
 Proof. intros W. rewrite (path_eval u W). reflexivity. Qed.
